@@ -13,8 +13,9 @@ DS:30h; GOTO n lands on line n (prints its uid).
 
 C14: one run = a generated program with every kind of line reference, entered in two Sessions
 (arm A and arm B) and run under the same poll-keyed event schedule so that it stops with traps
-armed. Arm A then executes RENUM (random new/old/step) where arm B executes a statement that
-resets the same stacks but renumbers nothing (MERGE of an empty file). Oracle: reference
+armed. Arm A then executes RENUM (random new/old/step) where arm B executes a REM: nothing that
+stores program lines is used as the counterpart, because storing a line (typed or MERGEd) clears
+variables and traps. Oracle: reference
 renumbering (LIST == model, `Undefined line x in y` for missing targets, rejected RENUM leaves
 the program unchanged); every later observation (ERROR n in direct mode -> armed error trap,
 GOTO <wait loop> with an event scheduled -> armed event trap, RUN under a schedule) must give
@@ -24,7 +25,7 @@ STRIG(0), PLAY) into some state - defined only, ON, ON then STOP, STOP only, ON 
 is defined, not defined yet - pauses at main level (STOP, or a loop in which a position-keyed
 Ctrl-Break arrives; sometimes also a STOP in the error handler), and after the pause defines what
 is missing, switches the traps ON and waits for them. The history is RUN, then per pause RENUM
-(arm B: a REM, so that both arms can CONT) and CONT with the events keyed to the stage's wait
+and CONT with the events keyed to the stage's wait
 loop (n-th statement boundary on that line of the original numbering; TIMER and PLAY through
 steps of the simulated clock). The CONT output must be the same in both arms. COM traps cannot
 fire (no serial back end in the simulation) and are left out.
@@ -58,10 +59,9 @@ STUB = ['wall clock (simulated)', 'interface queues (simulated; keyboard, pen, j
         'host file system errors (injected by sim.simfs wrappers)', 'cassette and serial devices (not attached: COM traps cannot fire)']
 ASSUMPTIONS = [
     'line text comes from templates whose listing is canonical (tokenise/list round trip is C17, not judged here)',
-    'C14 arm B uses MERGE of an empty file as the un-renumbered counterpart of RENUM (same stack reset, no renumbering)',
-    'C14 RENUM in a pause that is followed by CONT: arm B executes REM instead; the engine drops the GOSUB/FOR/WHILE '
-    'stacks at RENUM, which the property does not speak about, so nothing is compared after a pause at which a stack '
-    'was not empty (read from the engine only to gate the comparison)',
+    'C14 arm B executes REM as the un-renumbered counterpart of RENUM; the engine drops the GOSUB/FOR/WHILE '
+    'stacks at RENUM, which the property does not speak about, so nothing is compared after a RENUM at which a stack '
+    'was not empty, until the next RUN (read from the engine only to gate the comparison)',
     'C14 assumes that CONT after RENUM continues the program (GW-BASIC does; the property compares the behaviour of '
     'the renumbered program with the original one, which includes the rest of a paused run)',
     'torn binary (B/P) program files: no equality is claimed after LOAD, only absence of internal errors (tagged C01)',
@@ -1275,7 +1275,10 @@ def _gen_program(rng, tier, pause=False):
                 first = False
             for _ in range(rng.randint(0, per)):
                 block()
-            # --- the pause, at main level
+            # --- the pause, at main level; events keyed to the line in front of it arrive with the traps in the
+            # states set above: an event on a trap that is ON but held (STOP) stays pending through the pause
+            pl = pb.lab()
+            pb.add(['P%=P%+1'], lab=pl, role='prep')
             st = {'pause': 'stop', 'bl': None}
             if R() < 0.55:
                 pb.add(['STOP'], role='pause')
@@ -1284,6 +1287,7 @@ def _gen_program(rng, tier, pause=False):
                 pb.add(['B%=0'])
                 pb.add(['B%%=B%%+1:IF B%%<%d THEN ' % rng.randint(30, 90), ('@', bl)], lab=bl, role='bwait')
                 st = {'pause': 'brk', 'bl': bl}
+            st['pl'] = pl
             # --- after CONT: traps are switched on, then the program waits for them
             for e in rng.sample(evs, len(evs)):
                 name = _ev_name(e, keyno)
@@ -1405,7 +1409,8 @@ def _gen_program(rng, tier, pause=False):
         lines.append({'op': 'line', 'n': nums[i], 'parts': parts, 'role': ln['role']})
     info = {
         'waits': [labels[x] for x in waits], 'evs': evs, 'keyno': keyno, 'nums': nums,
-        'stages': [dict(st, bl=labels.get(st['bl']), wl=labels[st['wl']]) for st in stages], 'ehpause': ehpause,
+        'stages': [dict(st, bl=labels.get(st['bl']), wl=labels[st['wl']], pl=labels[st['pl']]) for st in stages],
+        'ehpause': ehpause,
         'traps': [labels[x] for x in [eh] * have_eh + [evlab[e] for e in evs]],
     }
     return lines, info
@@ -1458,10 +1463,12 @@ def gen14(rng, tier):
         return out
 
     def brk(st):
-        # Ctrl-Break while the program is in its break-wait loop (keyed by position: see _arm14)
-        if st['pause'] != 'brk':
-            return []
-        return [{'line': st['bl'], 'count': rng.randint(1, 20), 'ev': 'break'}]
+        # events just before the pause (they stay pending on a held trap), and Ctrl-Break while the program
+        # is in its break-wait loop (keyed by position: see _arm14)
+        out = [{'line': st['pl'], 'count': 1, 'ev': e, 'key': info['keyno']} for e in info['evs'] if rng.random() < 0.45]
+        if st['pause'] == 'brk':
+            out.append({'line': st['bl'], 'count': rng.randint(1, 20), 'ev': 'break'})
+        return out
 
     if pause:
         # RUN up to the first pause, then RENUM / CONT for every stage; events are keyed to the stage's
@@ -1639,15 +1646,14 @@ def _arm14(run, w, case, root, do_renum, decisions):
                 if do_renum:
                     text = _renum_text(op)
                     before = M.listing()
-                    if keep:
-                        # RENUM in a pause that is followed by CONT: the counterpart in arm B is "do nothing".
-                        # The engine also drops the GOSUB/FOR/WHILE stacks at RENUM, which the property neither
-                        # demands nor forbids: where that could show (a pause that is not at main level) nothing
-                        # is compared afterwards. Engine state is read here only to decide that, never to judge.
-                        it = d.s._impl.interpreter
-                        if it.gosub_stack or it.for_stack or it.while_stack:
-                            stackvoid[0] = True
-                            run.probe('pause_not_at_main_level')
+                    # The counterpart of RENUM in arm B is "do nothing" (REM). The engine also drops the
+                    # GOSUB/FOR/WHILE stacks at RENUM, which the property neither demands nor forbids: where that
+                    # could show (the program did not stop at main level) nothing is compared until the next RUN.
+                    # Engine state is read here only to decide that, never to judge.
+                    it = d.s._impl.interpreter
+                    if it.gosub_stack or it.for_stack or it.while_stack:
+                        stackvoid[0] = True
+                        run.probe('pause_not_at_main_level' if keep else 'stopped_not_at_main_level')
                     try:
                         r = E.x(text)
                     except EngineCrash as e:
@@ -1686,6 +1692,11 @@ def _arm14(run, w, case, root, do_renum, decisions):
                             sig = 'renum-list:line-numbers'
                         else:
                             sig = 'renum-list:references'
+                        if errored and plan['ok'] is False:
+                            # a RENUM that must be (and was) rejected has to leave the program as it was
+                            same_nums = got is not None and [x[0] for x in got] == [x[0] for x in before]
+                            sig = 'renum-rejected-but-program-changed:' + ('references' if same_nums else 'line-numbers')
+                            exp = before
                         bad = [(g, e) for g, e in zip(got or [], exp) if g != e][:5]
                         run.violate('C14', sig, '%s (errors %r) on\n%s\nfirst differing lines (engine, model): %r\n%s' % (
                             u(text), r.errs, progtext, bad, _diff(got, exp)))
@@ -1716,9 +1727,6 @@ def _arm14(run, w, case, root, do_renum, decisions):
                         M.apply_renum(mp)
                         orig = {o: mp.get(c, c) for o, c in orig.items()}
                         renumbered = True
-                        if not keep:
-                            # arm B drops the stacks here as well (MERGE)
-                            stackvoid[0] = False
                         if any(ref in M.lines for ref, _ in plan['missing']):
                             # a dangling reference now names a real line: the renumbered program is
                             # entitled to behave differently from here on
@@ -1738,7 +1746,7 @@ def _arm14(run, w, case, root, do_renum, decisions):
                 else:
                     dec = decisions.get(i)
                     if dec is True:
-                        r = E.x(b'REM' if keep else b'MERGE "C:EMPTY.BAS"')
+                        r = E.x(b'REM')
                         renumbered = True
                     else:
                         # a rejected RENUM is an Illegal function call in direct mode
@@ -1756,7 +1764,6 @@ def run14(case):
     def body(run):
         root = run.make_scratch()
         os.makedirs(os.path.join(root, 'c'))
-        _write(os.path.join(root, 'c', 'EMPTY.BAS'), b'')
         ops = case['ops']
         ra, dec = _arm14(run, run.w, case, root, True, {})
         if any(v == 'crash' for v in dec.values()):
